@@ -86,7 +86,7 @@ def _work(args):
         idx = start + off
         agg["n"] += 1
         agg["ops"] += r.get("ops", 1)
-        k = khash(r["key"] if "key" in r else jdump(case))
+        k = khash(r["key"] if r.get("key") is not None else jdump(case))
         agg["keys"].add(k)
         if r.get("skip"):
             agg["skips"] += 1
